@@ -163,12 +163,6 @@ theorem resolveOps_shape : ∀ (ops : List (Str × Kind)) (used : List Str) (rs 
     · exact ⟨rfl, (mkUnique_spec hr).2.2⟩
     · exact hz p hp
 
-theorem reserved_no_get : ∀ u ∈ reserved, u.take 3 ≠ GET := by decide
-
-theorem get_not_reserved (x : Str) : GET ++ x ∉ reserved := by
-  intro h
-  exact reserved_no_get _ h (by simp [GET, str])
-
 /-- FULL STATEMENT (open API): "the struct field names (fields, oneofs) and the `Get` method names (fields,
 oneofs) of a message are pairwise distinct and none of them is a reserved method name, for any field naming".
 It is false of the current code (`open_oneof_getter_collides`, `open_release_collides` below); it holds
@@ -228,44 +222,6 @@ theorem open_fields_getters_distinct (names : List Str) :
   simp only [openMembers, hf] at this
   exact ⟨rs, h, this⟩
 
-/-- where the resolved names come from -/
-theorem resolveOps_origin : ∀ (ops : List (Str × Kind)) (used : List Str) (rs : List (Str × Kind)),
-    resolveOps used ops = some rs → ∀ q ∈ rs, ∃ op ∈ ops, ∃ k, q.1 = op.1 ++ List.replicate k US
-  | [], _, rs, h => by simp [resolveOps] at h; subst h; simp
-  | (n, k) :: ops, used, rs, h => by
-    unfold resolveOps at h
-    simp only [Option.bind_eq_some_iff] at h
-    obtain ⟨r, hr, rs', hrs, h⟩ := h
-    cases h
-    intro q hq
-    rcases List.mem_cons.mp hq with rfl | hq
-    · exact ⟨(n, k), List.mem_cons_self .., (mkUnique_spec hr).2.2⟩
-    · obtain ⟨op, hop, hk⟩ := resolveOps_origin ops _ rs' hrs q hq
-      exact ⟨op, List.mem_cons_of_mem _ hop, hk⟩
-
-theorem take3_underscores (a : Str) (k : Nat) (x : Str)
-    (h : a ++ List.replicate k US = GET ++ x) : a.take 3 = GET := by
-  have h3 := congrArg (List.take 3) h
-  have hg : (GET ++ x).take 3 = GET := by simp [GET, str]
-  rw [hg] at h3
-  match a, h3 with
-  | [], h3 =>
-    match k, h3 with
-    | 0, h3 => simp [GET, str] at h3
-    | 1, h3 => simp [List.replicate, GET, str] at h3
-    | 2, h3 => simp [List.replicate, GET, str] at h3
-    | k+3, h3 => simp [List.replicate, GET, str, US] at h3
-  | [a1], h3 =>
-    match k, h3 with
-    | 0, h3 => simp [GET, str] at h3
-    | 1, h3 => simp [List.replicate, GET, str] at h3
-    | k+2, h3 => simp [List.replicate, GET, str, US] at h3
-  | [a1, a2], h3 =>
-    match k, h3 with
-    | 0, h3 => simp [GET, str] at h3
-    | k+1, h3 => simp [List.replicate, GET, str, US] at h3
-  | a1 :: a2 :: a3 :: t, h3 => simpa using h3
-
 /-- An input-level condition that implies `NoGetClash`: no camel-cased field or oneof name begins with
 `Get`.  (Resolution only appends `_`s, so no resolved name begins with `Get` either.) -/
 theorem noGetClash_of_no_get_prefix (ops rs : List (Str × Kind)) (used : List Str)
@@ -284,15 +240,6 @@ theorem open_names_distinct_of_no_get_prefix (ops : List (Str × Kind))
 example : ∀ op ∈ opsOf [str "reset"] []
     [fld "x" 1 none, fld "has_x" 2 none, fld "X" 3 (some 0), fld "string" 4 (some 0)], op.1.take 3 ≠ GET := by
   decide
-
-/-- the `makeNameUnique` calls of a message without oneofs are one call per field -/
-theorem opsOf_no_oneof (os : List Str) : ∀ (fs : List Field) (seen : List Nat),
-    (∀ f ∈ fs, f.oneof = none) → opsOf os seen fs = fs.map fun f => (goCamelCase f.name, Kind.plain)
-  | [], _, _ => rfl
-  | f :: fs, seen, h => by
-    have hf := h f (List.mem_cons_self ..)
-    have ih := opsOf_no_oneof os fs seen (fun g hg => h g (List.mem_cons_of_mem _ hg))
-    simp [opsOf, hf, ih]
 
 /-- message level: for a message without oneofs all member names of the generated open-API struct that
 derive from fields are pairwise distinct — whatever the fields are called. -/
@@ -405,31 +352,6 @@ theorem wrapper_collides : ∃ l, wrappersOf wWrapper = some l ∧ ¬ l.Nodup :=
 example : str "M_A" ∉ [str "M_B"] ∧ str "M_A_" ∉ [str "M_B"] := by decide
 
 /-! ### opaque API -/
-
-theorem mapIdxFrom_mem {α β : Type} (f : Nat → α → β) : ∀ (l : List α) (i : Nat) (x : β),
-    x ∈ mapIdxFrom f i l → ∃ j a, x = f j a
-  | [], _, _, h => by cases h
-  | a :: t, i, x, h => by
-    rcases List.mem_cons.mp h with rfl | h
-    · exact ⟨i, a, rfl⟩
-    · exact mapIdxFrom_mem f t (i+1) x h
-
-theorem mapIdxFrom_const {α β : Type} (f : Nat → α → β) (g : α → β) (hfg : ∀ i a, f i a = g a) :
-    ∀ (l : List α) (i : Nat), mapIdxFrom f i l = l.map g
-  | [], _ => rfl
-  | a :: t, i => by simp [mapIdxFrom, hfg, mapIdxFrom_const f g hfg t (i+1)]
-
-theorem camelRows_prefixes (m : Msg) (ev : List Nat) :
-    ∀ row ∈ camelRows m ev, row.1.Nodup ∧ ∀ p ∈ row.1, p ∈ methodPrefixes := by
-  intro row hrow
-  unfold camelRows at hrow
-  rcases List.mem_append.mp hrow with h | h
-  · obtain ⟨j, f, rfl⟩ := mapIdxFrom_mem _ _ _ _ h
-    show (fieldMethods f.presence).Nodup ∧ ∀ p ∈ fieldMethods f.presence, p ∈ methodPrefixes
-    cases f.presence <;> decide
-  · obtain ⟨r, _, rfl⟩ := List.mem_map.mp h
-    show oneofMethods.Nodup ∧ ∀ p ∈ oneofMethods, p ∈ methodPrefixes
-    decide
 
 /-- The method names of the opaque API are pairwise distinct as soon as the camelCase names (fields, and
 oneofs with members) are: `Get`/`Set`/`Has`/`Clear`/`Which` are prefix-free. -/
